@@ -85,9 +85,65 @@ def rule_raw_write(ctx):
     c08.rule_single_writer(ctx, "raw-write")
 
 
+def stuck_sites(funcs):
+    """call-free loops with a branch inside the body whose operands the body never changes: every iteration repeats the
+    same test (e.g. a comparison loop that forgets to advance its indices)"""
+    out = []
+    n_loops = 0
+    for f in funcs:
+        for h, body, backs in f.loops():
+            mod = set()
+            calls = False
+            for b in body:
+                for n in f.blocks[b]["n"]:
+                    if n["k"] == "asg" or (n["k"] == "un" and n.get("op") in ("++", "--")):
+                        for x in walk(f, n["a"][0]):
+                            if x["k"] == "ref":
+                                mod.add(x["n"])
+                    if n["k"] == "decl":
+                        for v in n.get("vars", ()):
+                            mod.add(v["n"])
+                    if n["k"] in ("call", "ctor", "new", "delete") and "::operator[]" not in (n.get("c") or ""):
+                        calls = True
+            if calls:
+                continue
+            n_loops += 1
+            for b in body:
+                if b == h:
+                    continue
+                t = f.blocks[b].get("term")
+                c = t.get("lc", t.get("c")) if t else None
+                if c is None or len(f.succ[b]) != 2:
+                    continue
+                refs = [x for x in walk(f, c) if x["k"] == "ref" and x.get("d") in ("lv", "pv")]
+                if refs and not any(x["n"] in mod for x in refs):
+                    out.append((f, t, c, sorted(mod)))
+    return out, n_loops
+
+
+def rule_stuck_iteration(ctx):
+    """Found on the pinned tree: tag_compare() compared d[a_idx] with d[b_idx] `len` times without advancing, so a C++ raw
+    string ended at the first `)x"` whose x starts like the delimiter, and the rest of the literal was formatted as code."""
+    from .. import selfcheck
+    db = ctx.db
+    r = ctx.rule("stuck-iteration", "in every call-free loop each branch inside the body reads something the body changes (no comparison is "
+                 "repeated unchanged on every iteration)")
+    sites, n_loops = stuck_sites([f for f in db.funcs.values() if f.file.startswith("src/")])
+    r.require(n_loops >= 15, "only %d call-free loops found" % n_loops)
+    pos, _ = stuck_sites(selfcheck.funcs_of("stuck_iteration"))
+    r.require(len(pos) == 1 and pos[0][0].qn == "stuck_compare", "the positive example selftest/positive/stuck_iteration.cpp is not matched exactly once (%s)" % [x[0].qn for x in pos])
+    r.seen(n_loops)
+    for f, t, c, mod in sites:
+        r.fail("%s/%s" % (f.qn, expr_str(f, c)[:50]), "%s:%s" % (f.file, t.get("l")), "the loop body changes only %s, but tests `%s` on every iteration: the test "
+               "never moves on" % (mod, expr_str(f, c)[:80]))
+    if not sites:
+        r.ok("all-call-free-loops", None, "%d loops" % n_loops)
+    r.floor(1)
+
+
 def rule_newline_crossing(ctx):
     from .common_effects import newline_crossing_rule
     newline_crossing_rule(ctx)
 
 
-RULES = [rule_literal_flag_agreement, rule_comment_dispatch, rule_effects, rule_raw_write, rule_newline_crossing]
+RULES = [rule_literal_flag_agreement, rule_comment_dispatch, rule_effects, rule_raw_write, rule_newline_crossing, rule_stuck_iteration]
